@@ -45,7 +45,7 @@ def traceLarge (c : Chart) (events : List String) : String :=
 def trace (line : String) : String :=
   match line.splitOn "\t" with
   | engine :: sx :: evs :: _ =>
-    match parseSExp sx >>= parseDoc with
+    match parseSExp sx >>= parseDocNamed with
     | some (d, late) =>
       let c := flatten d late
       let events := if evs == "-" then [] else evs.splitOn ","
